@@ -732,13 +732,19 @@ func exec(t []string) string {
 var reportedN = map[string]int{}
 var lastCrossed bool
 
+// fields of the objects (candidates, council members) that the rollback of a committee change /
+// voting-period start replaces by copies
+func staleLeaf(leaf string) bool {
+	return strings.HasPrefix(leaf, "S.Candidates[].") || strings.HasPrefix(leaf, "K.Members[].")
+}
+
 func recorded(leaf string) bool {
 	if leaf == "S.DepositOutputs[]" {
 		return true
 	}
 	// undo closures of earlier heights act on Candidate objects that the rollback of a committee
 	// change replaced by copies: any candidate field may be left un-restored
-	if lastCrossed && strings.HasPrefix(leaf, "S.Candidates[].") {
+	if lastCrossed && staleLeaf(leaf) {
 		return true
 	}
 	return false
@@ -766,7 +772,7 @@ func oracle(t []string, out string) *hx.Violation {
 	if first == "" {
 		for _, n := range fields {
 			key := n
-			if strings.HasPrefix(n, "S.Candidates[].") {
+			if staleLeaf(n) {
 				key = "S.Candidates[]"
 			}
 			if reportedN[key] < 3 {
@@ -788,8 +794,8 @@ func oracle(t []string, out string) *hx.Violation {
 		det = det[:1500] + "…"
 	}
 	det = fmt.Sprintf("candidate-objects-replaced=%v; ", lastCrossed) + det
-	if lastCrossed && strings.HasPrefix(first, "S.Candidates[].") {
-		first = "S.Candidates[]:stale-object" // one finding, whatever candidate field shows it
+	if lastCrossed && staleLeaf(first) {
+		first = "S.Candidates[]:stale-object" // one finding, whatever candidate / member field shows it
 	}
 	return &hx.Violation{Kind: "rollback-differs:" + first, Detail: "Committee after RollbackTo(" + t[1] + ") differs from a fresh Committee that processed only heights <= " + t[1] + ": " + det}
 }
